@@ -598,5 +598,41 @@ def impl_catalogue(cls):
     return f
 
 
+# ------------------------------------------------------------------------------------------
+# NTv2 interpolation kernels (regenerated as GenF.NtvInterp)
+import geodepy.ntv2reader as NT
+
+
+def _f32(v):
+    import struct as _s
+    return _s.unpack('<f', _s.pack('<f', v))[0]
+
+
+def g_ntv_xy(rng):
+    return rng.choice([0.0, 1.0, 0.5, rng.random(), rng.random(), rng.random(), 1e-9, 1 - 1e-9])
+
+
+def g_bilinear(rng):
+    m = rng.choice([1e-3, 1.0, 50.0, 100.0])
+    return [_f32(rng.uniform(-m, m)) for _ in range(4)] + [g_ntv_xy(rng), g_ntv_xy(rng)]
+
+
+def g_bicubic(rng):
+    m = rng.choice([1e-3, 1.0, 50.0, 100.0])
+    if rng.random() < 0.5:
+        nodes = [_f32(rng.uniform(-m, m)) for _ in range(16)]
+    else:       # a smooth (bi-quadratic) field sampled at the stencil positions, as in a real grid
+        c = [rng.uniform(-1, 1) * m / 9 for _ in range(9)]
+        pos = [(0, 0), (1, 0), (1, 1), (0, 1), (-1, -1), (0, -1), (1, -1), (2, -1), (2, 0), (2, 1), (2, 2), (1, 2),
+               (0, 2), (-1, 2), (-1, 1), (-1, 0)]
+        nodes = [_f32(sum(c[3 * i + j] * u ** i * v ** j for i in range(3) for j in range(3))) for u, v in pos]
+    return nodes + [g_ntv_xy(rng), g_ntv_xy(rng)]
+
+
+REGISTRY['NtvInterp.bilinear_interpolation'] = (NT.bilinear_interpolation, g_bilinear)
+REGISTRY['NtvInterp.bicubic_interpolation'] = (NT.bicubic_interpolation, g_bicubic)
+# np.matmul(cinv, xarr) goes through BLAS (summation order): |nodes| <= 100, row sums of |cinv| <= 81
+TIE_TOL['NtvInterp.bicubic_interpolation'] = [(1, 'abs', 2e-10)]
+
 REGISTRY['Constants.catalogue_Transformation'] = (impl_catalogue(K.Transformation), lambda r: [])
 REGISTRY['Constants.catalogue_TransformationSD'] = (impl_catalogue(K.TransformationSD), lambda r: [])
